@@ -1,5 +1,6 @@
 // Shared helpers for the verification harnesses (one JSON object per line in, one per line out).
 #pragma once
+#include <ftw.h>
 #include <json/json.h>
 #include <sys/stat.h>
 #include <unistd.h>
@@ -14,6 +15,10 @@
 namespace vh {
 
 inline std::string scratchRoot() {
+  // scenario worlds are many small short-lived files: prefer the tmpfs the check runner points at
+  if (const char* w = getenv("VERIF_WORLD")) {
+    return w;
+  }
   const char* s = getenv("VERIF_SCRATCH");
   std::string r = s ? s : "/var/tmp/oomd-verif";
   r += "/world";
@@ -35,9 +40,12 @@ inline void mkdirs(const std::string& p) {
   }
 }
 
+inline int rmrfCb(const char* path, const struct stat*, int, struct FTW*) {
+  return ::remove(path);
+}
+// no fork: forking a sanitizer-instrumented process is very slow
 inline void rmrf(const std::string& p) {
-  std::string cmd = "rm -rf '" + p + "'";
-  if (system(cmd.c_str())) {}
+  ::nftw(p.c_str(), rmrfCb, 64, FTW_DEPTH | FTW_PHYS);
 }
 
 inline std::string freshDir(const std::string& tag) {
